@@ -1,7 +1,7 @@
 SPECIFICATION Spec
 CONSTANTS
     Ideal = FALSE
-    Mode = "seq"
+    Mode = "seqsim"
     MaxLen = 4
     Mutation = "none"
 INVARIANTS Emit
